@@ -493,6 +493,7 @@ func c11run(w *report.W) {
 					return
 				}
 				verdicts := map[string]int{}
+				c11judge(c) // warms the per-matrix JSON cache outside the chooser, so that every execution meets the same points
 				ex := &explore.Explorer{Bound: 0, MaxExec: 20000}
 				ex.Run = func(x *explore.X) bool {
 					verifseam.SetChooser(x.Choose)
